@@ -1,6 +1,6 @@
 """C18 - bulk routines equal their single-item counterparts item by item."""
 from ..runner import Prop
-from ..layouts import zoo, lay1
+from ..layouts import fortran, zoo, lay1
 from ..nd import prod, lane_positions, result_shape
 from .c01 import mk_q_case, parse_q, C01, out_shape, lane_values, q_grid
 from .c02 import mk_select_case, mk_many_case, parse_sel, chk_term_sel, model_term_sel, LAYS
@@ -40,6 +40,11 @@ class C18(Prop):
             N = shape[axis]
             pool = q_grid(N, rng, 3)
             qs = [rng.choice(pool) for _ in range(rng.choice([0, 1, 2, 3, 5, 9, 32]))]
+            shape_q = rng.below(4)
+            if shape_q == 1:        # requests already in non-decreasing order, with adjacent repeats
+                qs = sorted(qs + qs[:3])
+            elif shape_q == 2:      # non-increasing
+                qs = sorted(qs + qs[:2], reverse=True)
             strat = rng.below(5)
             lay = rng.choice(zoo(shape, rng, 3))
             mode = ("P", rng.below(3))
@@ -65,9 +70,19 @@ class C18(Prop):
                 yield s
             # moments
             fet = rng.choice(["f64", "f32"])
-            mshape = [rng.range(1, 16)]
-            md = float_pool(rng.choice([0, 1, 2]), mshape[0], rng, fet)
-            ml = rng.choice(zoo(mshape, rng, 2))
+            # layouts whose memory order differs from the logical order matter here: both routines must add
+            # the same values in the same order (reversed 1-D views, F order, transposed blocks)
+            mk = g % 4
+            if mk == 0:
+                mshape = [rng.range(1, 16)]
+                ml = rng.choice(zoo(mshape, rng, 2))
+            elif mk == 1:
+                mshape = [rng.range(3, 16)]
+                ml = lay1(mshape[0], -1, rng.below(2), rng.below(2))
+            else:
+                mshape = [rng.range(2, 4), rng.range(2, 5)]
+                ml = fortran(mshape) if mk == 2 else rng.choice(zoo(mshape, rng, 3)[1:])
+            md = float_pool(rng.choice([1, 2, 1, 0]), prod(mshape), rng, fet)
             p = rng.range(0, 10)
             b = mk_num_case("central_moments", fet, [(mshape, md, ml)], "%d" % p, order=p)
             b.grp, b.role, b.kind = "m%d" % g, "bulk", "mom"
